@@ -74,7 +74,9 @@ Record rs_ep := mkRsEp {
   rs_cum : Z;                   (* peerLastTSN = payloadQueue.cumulativeTSN *)
   rs_maxoff : Z;                (* payloadQueue.maxTSNOffset *)
   rs_rcvd : list Z;             (* TSNs held by the payload queue (above cum) *)
-  rs_reqs : list rs_req         (* a.reconfigRequests, sorted by rsn *)
+  rs_reqs : list rs_req;        (* a.reconfigRequests, sorted by rsn *)
+  rs_done : option Z            (* a.performedResetRSN[sid]: request sequence number of the newest outgoing reset
+                                   request of the peer performed for this identifier (None = no entry) *)
 }.
 
 Definition rs_fresh_strm (gen : Z) : rs_strm := mkRsStrm gen rs_st_open false 0 0 0 0 [].
@@ -82,16 +84,19 @@ Definition rs_fresh_strm (gen : Z) : rs_strm := mkRsStrm gen rs_st_open false 0 
 (* ---- field updates *)
 Definition rs_set_obj (e : rs_ep) (present : bool) (o : rs_strm) : rs_ep :=
   mkRsEp (rs_estab e) present o (rs_fifo e) (rs_pend_u e) (rs_pend_o e) (rs_sel_o e) (rs_next_tsn e) (rs_next_rsn e)
-         (rs_reconfigs e) (rs_will_rtx e) (rs_cum e) (rs_maxoff e) (rs_rcvd e) (rs_reqs e).
+         (rs_reconfigs e) (rs_will_rtx e) (rs_cum e) (rs_maxoff e) (rs_rcvd e) (rs_reqs e) (rs_done e).
 Definition rs_set_pend (e : rs_ep) (u o : list rs_pchunk) (sel : bool) : rs_ep :=
   mkRsEp (rs_estab e) (rs_present e) (rs_obj e) (rs_fifo e) u o sel (rs_next_tsn e) (rs_next_rsn e)
-         (rs_reconfigs e) (rs_will_rtx e) (rs_cum e) (rs_maxoff e) (rs_rcvd e) (rs_reqs e).
+         (rs_reconfigs e) (rs_will_rtx e) (rs_cum e) (rs_maxoff e) (rs_rcvd e) (rs_reqs e) (rs_done e).
 Definition rs_set_snd (e : rs_ep) (tsn rsn : Z) (rc : list rs_req) (w : bool) : rs_ep :=
   mkRsEp (rs_estab e) (rs_present e) (rs_obj e) (rs_fifo e) (rs_pend_u e) (rs_pend_o e) (rs_sel_o e) tsn rsn
-         rc w (rs_cum e) (rs_maxoff e) (rs_rcvd e) (rs_reqs e).
+         rc w (rs_cum e) (rs_maxoff e) (rs_rcvd e) (rs_reqs e) (rs_done e).
 Definition rs_set_rcv (e : rs_ep) (cum : Z) (rcvd : list Z) (rq : list rs_req) : rs_ep :=
   mkRsEp (rs_estab e) (rs_present e) (rs_obj e) (rs_fifo e) (rs_pend_u e) (rs_pend_o e) (rs_sel_o e) (rs_next_tsn e) (rs_next_rsn e)
-         (rs_reconfigs e) (rs_will_rtx e) cum (rs_maxoff e) rcvd rq.
+         (rs_reconfigs e) (rs_will_rtx e) cum (rs_maxoff e) rcvd rq (rs_done e).
+Definition rs_set_done (e : rs_ep) (d : option Z) : rs_ep :=
+  mkRsEp (rs_estab e) (rs_present e) (rs_obj e) (rs_fifo e) (rs_pend_u e) (rs_pend_o e) (rs_sel_o e) (rs_next_tsn e) (rs_next_rsn e)
+         (rs_reconfigs e) (rs_will_rtx e) (rs_cum e) (rs_maxoff e) (rs_rcvd e) (rs_reqs e) d.
 
 Definition rs_mem (x : Z) (l : list Z) : bool := existsb (Z.eqb x) l.
 
@@ -285,7 +290,8 @@ Definition rs_recv_response (sid : Z) (e : rs_ep) (rsn result : Z) : rs_ep * rs_
     let e1 :=
       if result =? c_reconfigResultSuccessPerformed then
         match rs_req_get (rs_reconfigs e) rsn with
-        | Some q => if rs_mem sid (rs_q_ids q) && rs_present e
+        | Some q => (* Stream.resetOutgoingStreamSequenceNumbers does nothing on an open stream (a186bb2) *)
+                    if rs_mem sid (rs_q_ids q) && rs_present e && negb (rs_state (rs_obj e) =? rs_st_open)
                     then rs_set_obj e true (rs_reset_counters (rs_obj e)) else e
         | None => e
         end
@@ -307,10 +313,17 @@ Definition rs_inbound_reset (o : rs_strm) : rs_strm :=
 Record rs_resp := mkRsResp { rs_r_rsn : Z; rs_r_res : Z; rs_r_hit : bool; rs_r_last : Z; rs_r_cum : Z }.
 
 (* resetStreamsIfAny *)
+(* fd7385c: a request whose sequence number is not newer than the one recorded for the identifier was
+   performed already (retransmission / duplicate): answered again, not performed again *)
+Definition rs_already (e : rs_ep) (q : rs_req) : bool :=
+  match rs_done e with Some p => sna32LTE (rs_q_rsn q) p | None => false end.
+
 Definition rs_reset_if_any (sid : Z) (e : rs_ep) (q : rs_req) : rs_ep * rs_resp :=
   if sna32LTE (rs_q_last q) (rs_cum e) then
-    let hit := rs_mem sid (rs_q_ids q) && rs_present e in
-    let e1 := if hit then rs_set_obj e false (rs_inbound_reset (rs_obj e)) else e in
+    let fresh := rs_mem sid (rs_q_ids q) && negb (rs_already e q) in
+    let hit := fresh && rs_present e in
+    let e0 := if fresh then rs_set_done e (Some (rs_q_rsn q)) else e in
+    let e1 := if hit then rs_set_obj e0 false (rs_inbound_reset (rs_obj e0)) else e0 in
     (rs_set_rcv e1 (rs_cum e1) (rs_rcvd e1) (rs_req_del (rs_reqs e1) (rs_q_rsn q)),
      mkRsResp (rs_q_rsn q) c_reconfigResultSuccessPerformed hit (rs_q_last q) (rs_cum e))
   else (e, mkRsResp (rs_q_rsn q) c_reconfigResultInProgress false (rs_q_last q) (rs_cum e)).
@@ -528,4 +541,4 @@ Fixpoint rs_sys_run (sid : Z) (s : rs_sys) (evs : list rs_sev) (log : list rs_rr
   end.
 
 Definition rs_ep_init (fifo : bool) (tsn peer_tsn : Z) : rs_ep :=
-  mkRsEp true true (rs_fresh_strm 1) fifo [] [] false tsn tsn [] false (wrap32 (peer_tsn - 1)) 8384 [] [].
+  mkRsEp true true (rs_fresh_strm 1) fifo [] [] false tsn tsn [] false (wrap32 (peer_tsn - 1)) 8384 [] [] None.
